@@ -1,19 +1,8 @@
 /- C13 — helper lemmas (core Lean only) -/
 import Ipv8.C13.TableA
-import Ipv8.C13.TableB
-import Ipv8.C13.TableC
-import Ipv8.C13.TableD
-import Ipv8.C13.TableE
-import Ipv8.C13.TableF
-import Ipv8.C13.TableG
 import Ipv8.C13.TableH
-import Ipv8.C13.TableI
-import Ipv8.C13.TableJ
-import Ipv8.C13.TableK
-import Ipv8.C13.TableL
 import Ipv8.C13.TableM
 import Ipv8.C13.TableN
-import Ipv8.C13.TableO
 import Ipv8.C13.TableP
 
 namespace Ipv8.C13
